@@ -348,7 +348,8 @@ func (g *Gen) mayPanic(kind, safe string, pos token.Pos) {
 		g.panicSites[kind] = append(g.panicSites[kind], pos)
 	}
 	if g.fc != nil && g.fc.NoPanic && g.pass == 2 && g.inlineDepth == 0 &&
-		(len(g.fc.NoPanicKinds) == 0 || containsStr(g.fc.NoPanicKinds, kind)) {
+		(len(g.fc.NoPanicKinds) == 0 || containsStr(g.fc.NoPanicKinds, kind)) &&
+		!(containsStr(g.fc.NoPanicKinds, "recovered") && g.recoverArmedHere()) {
 		// ordinal in source order (rank of the position among this kind's sites), stable under
 		// changes of block processing order
 		rank := 1
@@ -365,6 +366,22 @@ func (g *Gen) mayPanic(kind, safe string, pos token.Pos) {
 		g.oblige("nopanic", name, safe, g.fc.NoPanicProps, "no "+kind+" panic", pos)
 	}
 	g.assume(safe)
+}
+
+// recoverArmedHere: a deferred function literal that calls recover() in its entry block was
+// registered on every path to the current block, so a panic here does not escape the function
+// (`nopanic(..., recovered)` exempts such sites: the contract is then "no panic ESCAPES").
+func (g *Gen) recoverArmedHere() bool {
+	for _, d := range g.defers {
+		db := d.Block()
+		if db != g.cur && !db.Dominates(g.cur) {
+			continue
+		}
+		if recoversAll(d) {
+			return true
+		}
+	}
+	return false
 }
 
 // ---------- values ----------
